@@ -24,9 +24,17 @@ type Case struct {
 	OffsetMs int        `json:"offset_ms"` // after process start
 	Warm     bool       `json:"warm_cache"`
 	TrapTerm bool       `json:"commands_trap_term"`
+	FailFast bool       `json:"fail_fast,omitempty"` // the interrupted build runs with --fail-fast (nothing fails: the interrupt is not a failure)
 }
 
 const exitWithin = 15 * time.Second
+
+func interruptedArgs(c Case) []string {
+	if c.FailFast {
+		return []string{"build", "--fail-fast", "//..."}
+	}
+	return []string{"build", "//..."}
+}
 
 func run(c Case) (pbt.Result, error) {
 	res := pbt.Result{}
@@ -74,7 +82,7 @@ func run(c Case) (pbt.Result, error) {
 		} else {
 			_ = cmd.Process.Signal(sig)
 		}
-	}, "build", "//...")
+	}, interruptedArgs(c)...)
 	exited := time.Now()
 	sb.NoReap = false
 	defer func() { _ = syscall.Kill(-r.Pgid, syscall.SIGKILL) }()
@@ -158,7 +166,7 @@ func gen(t *rapid.T) Case {
 		w.Targets[i].SlowMs = rapid.SampledFrom([]int{0, 150, 400, 900}).Draw(t, "slow")
 	}
 	c := Case{WS: w, Signal: rapid.SampledFrom([]string{"INT", "TERM"}).Draw(t, "signal"), Group: rapid.Bool().Draw(t, "group"),
-		Warm: rapid.IntRange(0, 3).Draw(t, "warm") == 0, TrapTerm: rapid.IntRange(0, 2).Draw(t, "trapterm") == 0}
+		Warm: rapid.IntRange(0, 3).Draw(t, "warm") == 0, TrapTerm: rapid.IntRange(0, 2).Draw(t, "trapterm") == 0, FailFast: rapid.IntRange(0, 2).Draw(t, "failfast") == 0}
 	// offsets stratified over start-up, execution and the tail of the build
 	c.OffsetMs = rapid.SampledFrom([]int{0, 5, 20, 60, 120, 250, 400, 600, 900, 1300, 1800, 2500, 3500}).Draw(t, "offset") + rapid.IntRange(0, 90).Draw(t, "jitter")
 	return c
